@@ -28,12 +28,22 @@ Property theorems (the obligations):
 * `scan_ends_with_eof`  — the last token is `Eof`, no earlier one is, at most `src.length` tokens precede it;
 * `scan_lines_monotone` — token line numbers are non-decreasing, start at 1, and are at most
                           1 + the number of `'\n'` in the source;
+* `scan_lines_exact_partial` (with `nextToken_exact`) — if the scan produces no `Illegal` and no `Byte` token, every
+                          token's line is EXACTLY 1 + the number of `'\n'` up to and including the token's last character
+                          (newlines in whitespace, comments, string literals and char literals are all counted);
 * `skip_phase_exits`, `readWhile_exits`, `readUntilQuote_exits`, `readStringBody_exits`,
   `skipLine_exits`, `skipWhitespace_exits`, `skipComments_exits` — the fuel of every inner loop
   suffices: each loop returns at the exit condition of the Rust loop it models.
 
-No fact about the generated tables (`Gen.ParseRules.keywords/singles/twins`) is used: whatever the
-tables contain, the single/twin arms read at most one further character, and the NUL test precedes them.
+The line counter is advanced in three places, as in the code: `skip_whitespace` (a newline between tokens), the loop of
+`read_string` (a newline inside a string literal, closed or not — after the break test, on the character just read) and
+`read_char_token` (a raw newline as the character behind the opening quote, before the second `read_char`).  Each
+increment is paired with a newline passed (`Reach.nl`, `Skip.nl`, `Adv.nl`, `Next.nl`: the counter grows by at most the
+number of newlines passed; `StrLoop.nl`, `Exa`: by exactly that number).
+
+No fact about the generated tables (`Gen.ParseRules.keywords/singles/twins`) is used for totality and monotonicity:
+whatever the tables contain, the single/twin arms read at most one further character, and the NUL test precedes them.
+The exactness theorem uses one (`twins_no_nl`: no two-character operator ends in a newline).
 -/
 namespace P2sh.Props.C01
 open P2sh.Scanner
@@ -99,6 +109,49 @@ theorem slice_isSome {s : S} {a b : Nat} (h1 : a ≤ b) (h2 : b ≤ s.input.size
     ∃ t, s.slice a b = some t := by
   simp [S.slice, h1, h2]
 
+/-! ## line numbers: newlines before the cursor -/
+
+/-- number of `'\n'` characters before the cursor -/
+def nlBefore (s : S) : Nat := (s.input.toList.take s.position).count '\n'
+
+theorem nlBefore_mono {s s' : S} (hin : s'.input = s.input) (hp : s.position ≤ s'.position) :
+    nlBefore s ≤ nlBefore s' := by
+  unfold nlBefore
+  rw [hin]
+  exact List.Sublist.count_le _ (List.take_sublist_take_left hp)
+
+theorem nlBefore_le_total (s : S) : nlBefore s ≤ s.input.toList.count '\n' :=
+  List.Sublist.count_le _ (List.take_sublist _ _)
+
+theorem nlBefore_newline {s s' : S} (h : Inv s) (hc : s.ch = '\n') (hin : s'.input = s.input)
+    (hp : s'.position = s.position + 1) : nlBefore s' = nlBefore s + 1 := by
+  unfold nlBefore
+  rw [hin, hp, List.take_add_one, List.count_append]
+  have h1 := h.ch
+  rw [hc, Array.getD_eq_getD_getElem?, ← Array.getElem?_toList] at h1
+  cases hx : s.input.toList[s.position]? with
+  | none => rw [hx] at h1; exact absurd h1 (by decide)
+  | some c =>
+    rw [hx] at h1
+    simp only [Option.getD_some] at h1
+    subst h1
+    simp
+
+theorem nlBefore_other {s s' : S} (h : Inv s) (hc : s.ch ≠ '\n') (hin : s'.input = s.input)
+    (hp : s'.position = s.position + 1) : nlBefore s' = nlBefore s := by
+  unfold nlBefore
+  rw [hin, hp, List.take_add_one, List.count_append]
+  have h1 := h.ch
+  rw [Array.getD_eq_getD_getElem?, ← Array.getElem?_toList] at h1
+  cases hx : s.input.toList[s.position]? with
+  | none => simp
+  | some c =>
+    rw [hx] at h1
+    simp only [Option.getD_some] at h1
+    subst h1
+    have : (s.ch == '\n') = false := by simpa using hc
+    simp [List.count_cons, this]
+
 /-! ## `Reach s0 s`: inside one reader function, `s` was reached from `s0` by `read_char`s that
 stayed within the input (so `input[s0.position .. s.position]` is a valid slice) -/
 
@@ -107,19 +160,26 @@ structure Reach (s0 s : S) : Prop where
   input : s.input = s0.input
   pos : s0.position ≤ s.position
   bd : s.position ≤ s.input.size
-  line : s.line = s0.line
+  /-- the line number only grows (inside a string literal, and on a raw newline as the character of a char literal) -/
+  line : s0.line ≤ s.line
+  /-- … by at most the number of newlines passed -/
+  nl : s.line + nlBefore s0 ≤ s0.line + nlBefore s
 
 theorem Reach.refl {s : S} (h : Inv s) (hb : s.position ≤ s.input.size) : Reach s s :=
-  ⟨h, rfl, Nat.le_refl _, hb, rfl⟩
+  ⟨h, rfl, Nat.le_refl _, hb, Nat.le_refl _, Nat.le_refl _⟩
 
 theorem Reach.trans {a b c : S} (h1 : Reach a b) (h2 : Reach b c) : Reach a c :=
-  ⟨h2.inv, h2.input.trans h1.input, Nat.le_trans h1.pos h2.pos, h2.bd, h2.line.trans h1.line⟩
+  ⟨h2.inv, h2.input.trans h1.input, Nat.le_trans h1.pos h2.pos, h2.bd, Nat.le_trans h1.line h2.line,
+   by have := h1.nl; have := h2.nl; omega⟩
 
 /-- one `read_char` from a position inside the input -/
 theorem Reach.step {s0 s : S} (r : Reach s0 s) (hlt : s.position < s.input.size) :
     Reach s0 s.readChar :=
   ⟨readChar_inv s, r.input, by rw [r.inv.readChar_pos]; exact Nat.le_succ_of_le r.pos,
-   by rw [r.inv.readChar_pos]; exact hlt, r.line⟩
+   by rw [r.inv.readChar_pos]; exact hlt, r.line,
+   by have := r.nl
+      have := nlBefore_mono (s := s) (s' := s.readChar) rfl (by rw [r.inv.readChar_pos]; exact Nat.le_succ _)
+      simp only [readChar_line]; omega⟩
 
 theorem Reach.step' {s0 s : S} (r : Reach s0 s) (hc : s.ch ≠ nul) : Reach s0 s.readChar :=
   r.step (r.inv.lt_of_ne hc)
@@ -207,31 +267,73 @@ theorem ReachS.condStep {s0 s : S} (r : ReachS s0 s) (c : Char) (hc : c ≠ nul)
   · next h => exact r.step' (by rw [eq_of_beq h]; exact hc)
   · exact r
 
-/-- the `read_char(); if ch == q || ch == '\0' { break }` loop of `read_string` / comment skipping -/
-theorem readStringBody_reach :
-    ∀ (fuel : Nat) (s : S), Inv s → s.position < s.input.size → ReachS s (readStringBody (fuel+1) s)
-  | 0, s, h, hb => by
-    have r1 := (Reach.refl h (Nat.le_of_lt hb)).stepS hb
-    simp only [readStringBody]
-    split <;> exact r1
-  | fuel+1, s, h, hb => by
-    have r1 := (Reach.refl h (Nat.le_of_lt hb)).stepS hb
+/-- the state with which the string loop continues after a character that is not the closing quote:
+the line counter is advanced if that character is a newline -/
+theorem bump_facts (s1 : S) (h : Inv s1) :
+    Inv (if (s1.ch == '\n') = true then { s1 with line := s1.line + 1 } else s1) ∧
+    (if (s1.ch == '\n') = true then { s1 with line := s1.line + 1 } else s1).input = s1.input ∧
+    (if (s1.ch == '\n') = true then { s1 with line := s1.line + 1 } else s1).position = s1.position ∧
+    (if (s1.ch == '\n') = true then { s1 with line := s1.line + 1 } else s1).line + nlBefore s1 =
+      s1.line + nlBefore (if (s1.ch == '\n') = true then { s1 with line := s1.line + 1 } else s1).readChar := by
+  split
+  · next hc =>
+    refine ⟨⟨h.rp, h.ch⟩, rfl, rfl, ?_⟩
+    have := nlBefore_newline (s' := ({ s1 with line := s1.line + 1 } : S).readChar) h (eq_of_beq hc) rfl h.rp
+    show s1.line + 1 + nlBefore s1 = _
+    omega
+  · next hc =>
+    refine ⟨h, rfl, rfl, ?_⟩
+    have := nlBefore_other (s' := s1.readChar) h (by simpa using hc) rfl h.rp
+    omega
+
+/-- what the `read_char(); if ch == '"' || ch == '\0' { break }; if ch == '\n' { line += 1 }` loop of `read_string`
+guarantees: it stays inside the input, consumes at least one character, and counts EXACTLY the newlines strictly
+between the entry position and the exit position -/
+structure StrLoop (s s' : S) : Prop where
+  inv : Inv s'
+  input : s'.input = s.input
+  lt : s.position < s'.position
+  bd : s'.position ≤ s'.input.size
+  nl : s'.line + nlBefore s.readChar = s.line + nlBefore s'
+
+theorem readStringBody_loop :
+    ∀ (fuel : Nat) (s : S), Inv s → s.position < s.input.size → s.input.size - s.position ≤ fuel →
+      StrLoop s (readStringBody fuel s)
+  | 0, _, _, hlt, hf => by omega
+  | fuel+1, s, h, hlt, hf => by
+    have hp := h.readChar_pos
+    have i1 := readChar_inv s
     rw [readStringBody]
     split
-    · exact r1
+    · exact ⟨i1, rfl, by rw [hp]; exact Nat.lt_succ_self _, by rw [hp]; exact hlt, rfl⟩
     · next hc =>
-      have hne : s.readChar.ch ≠ nul := by
-        intro e; simp [e] at hc
-      exact r1.trans (readStringBody_reach fuel _ r1.reach.inv (r1.reach.inv.lt_of_ne hne)).reach
+      have hne : s.readChar.ch ≠ nul := by intro e; simp [e] at hc
+      have hlt' := i1.lt_of_ne hne
+      obtain ⟨i', hin', hpos', hnl'⟩ := bump_facts s.readChar i1
+      generalize (if (s.readChar.ch == '\n') = true then { s.readChar with line := s.readChar.line + 1 } else s.readChar) = s1'
+        at i' hin' hpos' hnl'
+      have ih := readStringBody_loop fuel s1' i' (by rw [hin', hpos']; exact hlt')
+        (by rw [hin', hpos', readChar_input, hp]; omega)
+      refine ⟨ih.inv, ih.input.trans hin', ?_, ih.bd, ?_⟩
+      · have := ih.lt; rw [hpos', hp] at this; omega
+      · have := ih.nl; simp only [readChar_line] at hnl'; omega
+
+theorem StrLoop.reachS {s s' : S} (h : Inv s) (l : StrLoop s s') : ReachS s s' := by
+  have hp := h.readChar_pos
+  have m1 := nlBefore_mono (s := s) (s' := s.readChar) rfl (by rw [hp]; exact Nat.le_succ _)
+  have m2 := nlBefore_mono (s := s.readChar) (s' := s') l.input (by rw [hp]; exact l.lt)
+  have := l.nl
+  exact ⟨⟨l.inv, l.input, Nat.le_of_lt l.lt, l.bd, by omega, by omega⟩, l.lt⟩
 
 /-! ## results of the reader functions -/
 
-/-- the reader returned a token (no panic), stayed inside the input, advanced the cursor -/
+/-- the reader returned a token (no panic), stayed inside the input, advanced the cursor; the token carries the
+line number of the state the reader ends in (`make_token` is the last thing every reader does) -/
 def Good (s : S) (r : Res) : Prop :=
-  ∃ t s', r = .tok t s' ∧ ReachS s s' ∧ t.line = s.line
+  ∃ t s', r = .tok t s' ∧ ReachS s s' ∧ t.line = s'.line
 
 theorem good_tok {s0 s : S} (r : ReachS s0 s) (ty lit : String) : Good s0 (.tok (mk s ty lit) s) :=
-  ⟨_, _, rfl, r, r.reach.line⟩
+  ⟨_, _, rfl, r, rfl⟩
 
 theorem identFirst_nul : isIdentFirst nul = false := by decide
 theorem identRemaining_nul : isIdentRemaining nul = false := by decide
@@ -239,13 +341,33 @@ theorem isDigit_nul : Char.isDigit nul = false := by decide
 
 theorem readString_good (s : S) (h : Inv s) (hc : s.ch ≠ nul) : Good s (readString s) := by
   have hlt := h.lt_of_ne hc
-  have r1 := readStringBody_reach s.input.size s h hlt
+  have r1 := (readStringBody_loop (s.input.size + 1) s h hlt (by omega)).reachS h
   simp only [readString]
   generalize readStringBody (s.input.size + 1) s = s1 at r1
   obtain ⟨t, ht⟩ := slice_isSome (s := s1) (a := s.position + 1) (b := s1.position) r1.lt r1.reach.bd
   rw [ht]
   simp only []
   split <;> exact good_tok r1 _ _
+
+/-- the two steps of `read_char_token` behind the opening quote: `if the_char == "\n" { line += 1 }; read_char()` -/
+theorem ReachS.charStep {s0 s1 : S} (r : ReachS s0 s1) (hlt : s1.position < s1.input.size) {c : Char}
+    (hc : s1.at s1.position = some c) :
+    ReachS s0 (if (c == '\n') = true then { s1 with line := s1.line + 1 } else s1).readChar := by
+  have hch : s1.ch = c := by
+    rw [r.reach.inv.ch, Array.getD_eq_getD_getElem?]
+    unfold S.at at hc
+    rw [hc]; rfl
+  split
+  · next hn =>
+    have i1 := r.reach.inv
+    refine r.trans ⟨readChar_inv _, rfl, ?_, ?_, Nat.le_succ _, ?_⟩
+    · show s1.position ≤ s1.readPosition; rw [i1.rp]; exact Nat.le_succ _
+    · show s1.readPosition ≤ s1.input.size; rw [i1.rp]; exact hlt
+    · have := nlBefore_newline (s' := ({ s1 with line := s1.line + 1 } : S).readChar) i1
+        (hch.trans (eq_of_beq hn)) rfl i1.rp
+      show s1.line + 1 + nlBefore s1 ≤ _
+      omega
+  · exact r.step hlt
 
 theorem readCharToken_good (s : S) (h : Inv s) (hc : s.ch ≠ nul) : Good s (readCharToken s) := by
   have r1 := (Reach.refl h (Nat.le_of_lt (h.lt_of_ne hc))).stepS' hc
@@ -256,8 +378,8 @@ theorem readCharToken_good (s : S) (h : Inv s) (hc : s.ch ≠ nul) : Good s (rea
   · next hlt =>
     obtain ⟨c, hc⟩ := at_isSome (s := s1) (Nat.lt_of_not_le hlt)
     simp only [hc]
-    have r2 := r1.step (Nat.lt_of_not_le hlt)
-    generalize s1.readChar = s2 at r2
+    have r2 := r1.charStep (Nat.lt_of_not_le hlt) hc
+    generalize (if (c == '\n') = true then { s1 with line := s1.line + 1 } else s1).readChar = s2 at r2
     split
     · exact good_tok r2 _ _
     · have r3 := r2.untilQuote (s2.input.size + 1)
@@ -465,34 +587,6 @@ theorem readNumber_good (s0 : S) (h : Inv s0)
   rw [heq2'] at key
   exact numTail_good key (s0.input.size + 1) isHex isOct isBin isFloat
 
-/-! ## line numbers: newlines before the cursor -/
-
-/-- number of `'\n'` characters before the cursor -/
-def nlBefore (s : S) : Nat := (s.input.toList.take s.position).count '\n'
-
-theorem nlBefore_mono {s s' : S} (hin : s'.input = s.input) (hp : s.position ≤ s'.position) :
-    nlBefore s ≤ nlBefore s' := by
-  unfold nlBefore
-  rw [hin]
-  exact List.Sublist.count_le _ (List.take_sublist_take_left hp)
-
-theorem nlBefore_le_total (s : S) : nlBefore s ≤ s.input.toList.count '\n' :=
-  List.Sublist.count_le _ (List.take_sublist _ _)
-
-theorem nlBefore_newline {s s' : S} (h : Inv s) (hc : s.ch = '\n') (hin : s'.input = s.input)
-    (hp : s'.position = s.position + 1) : nlBefore s' = nlBefore s + 1 := by
-  unfold nlBefore
-  rw [hin, hp, List.take_add_one, List.count_append]
-  have h1 := h.ch
-  rw [hc, Array.getD_eq_getD_getElem?, ← Array.getElem?_toList] at h1
-  cases hx : s.input.toList[s.position]? with
-  | none => rw [hx] at h1; exact absurd h1 (by decide)
-  | some c =>
-    rw [hx] at h1
-    simp only [Option.getD_some] at h1
-    subst h1
-    simp
-
 /-! ## whitespace and comments -/
 
 /-- `s` was reached from `s0` by skipping: cursor and line number only grow -/
@@ -574,23 +668,34 @@ structure Adv (s2 s' : S) : Prop where
   inv : Inv s'
   input : s'.input = s2.input
   pos : s2.position < s'.position
-  line : s'.line = s2.line
+  line : s2.line ≤ s'.line
+  /-- the line number grows by at most the number of newlines passed -/
+  nl : s'.line + nlBefore s2 ≤ s2.line + nlBefore s'
 
 theorem Adv.first {s : S} (h : Inv s) : Adv s s.readChar :=
-  ⟨readChar_inv s, rfl, by rw [h.readChar_pos]; exact Nat.lt_succ_self _, rfl⟩
+  have hp : s.position < s.readChar.position := by rw [h.readChar_pos]; exact Nat.lt_succ_self _
+  ⟨readChar_inv s, rfl, hp, Nat.le_refl _,
+   by have := nlBefore_mono (s := s) (s' := s.readChar) rfl (Nat.le_of_lt hp); simp only [readChar_line]; omega⟩
 
 theorem Adv.step {s2 s' : S} (a : Adv s2 s') : Adv s2 s'.readChar :=
-  ⟨readChar_inv s', a.input, by rw [a.inv.readChar_pos]; exact Nat.lt_succ_of_lt a.pos, a.line⟩
+  ⟨readChar_inv s', a.input, by rw [a.inv.readChar_pos]; exact Nat.lt_succ_of_lt a.pos, a.line,
+   by have := a.nl
+      have := nlBefore_mono (s := s') (s' := s'.readChar) rfl (by rw [a.inv.readChar_pos]; exact Nat.le_succ _)
+      simp only [readChar_line]; omega⟩
 
 theorem ReachS.adv {s2 s' : S} (r : ReachS s2 s') : Adv s2 s' :=
-  ⟨r.reach.inv, r.reach.input, r.lt, r.reach.line⟩
+  ⟨r.reach.inv, r.reach.input, r.lt, r.reach.line, r.reach.nl⟩
+
+/-- the token was made somewhere between the end of the skipping phase and the returned state -/
+theorem Next.mkG {s s2 s' : S} {t : Token} (k : Skip s s2) (a : Adv s2 s') (hlo : s2.line ≤ t.line)
+    (hhi : t.line ≤ s'.line) (live : t.ttype ≠ "Eof" → s2.position < s2.input.size) : Next s t s' :=
+  ⟨a.inv, a.input.trans k.input, Nat.lt_of_le_of_lt k.pos a.pos, Nat.le_trans k.line hlo, hhi,
+   by have := k.nl; have := a.nl; omega,
+   fun hne => by have := live hne; rw [k.input] at this; exact Nat.lt_of_le_of_lt k.pos this⟩
 
 theorem Next.mk' {s s2 s' : S} {t : Token} (k : Skip s s2) (a : Adv s2 s') (ht : t.line = s2.line)
     (live : t.ttype ≠ "Eof" → s2.position < s2.input.size) : Next s t s' :=
-  ⟨a.inv, a.input.trans k.input, Nat.lt_of_le_of_lt k.pos a.pos, by rw [ht]; exact k.line,
-   by rw [ht, a.line]; exact Nat.le_refl _,
-   by have := k.nl; have := nlBefore_mono a.input (Nat.le_of_lt a.pos); rw [a.line]; omega,
-   fun hne => by have := live hne; rw [k.input] at this; exact Nat.lt_of_le_of_lt k.pos this⟩
+  Next.mkG k a (by rw [ht]; exact Nat.le_refl _) (by rw [ht]; exact a.line) live
 
 theorem singleOrTwin_cases {s : S} {t : Token} {s' : S} (h : singleOrTwin s = some (t, s')) :
     (s' = s ∨ s' = s.readChar) ∧ t.line = s.line := by
@@ -610,7 +715,7 @@ theorem singleOrTwin_cases {s : S} {t : Token} {s' : S} (h : singleOrTwin s = so
 theorem next_of_good {s s2 : S} (k : Skip s s2) {r : Res} (g : Good s2 r) :
     ∃ t s', r = .tok t s' ∧ Next s t s' := by
   obtain ⟨t, s', e, rs, hl⟩ := g
-  exact ⟨t, s', e, Next.mk' k rs.adv hl
+  exact ⟨t, s', e, Next.mkG k rs.adv (by rw [hl]; exact rs.reach.line) (by rw [hl]; exact Nat.le_refl _)
     (fun _ => Nat.lt_of_lt_of_le rs.lt (by have := rs.reach.bd; rw [rs.reach.input] at this; exact this))⟩
 
 /-- the arms of `next_token` that end with the common `self.read_char()` after a reader function -/
@@ -620,7 +725,7 @@ theorem next_of_good_step {s s2 : S} (k : Skip s s2) {r : Res} (g : Good s2 r) :
       | .panic => Res.panic) = .tok t s' ∧ Next s t s' := by
   obtain ⟨t, s', e, rs, hl⟩ := g
   subst e
-  exact ⟨t, s'.readChar, rfl, Next.mk' k rs.adv.step hl
+  exact ⟨t, s'.readChar, rfl, Next.mkG k rs.adv.step (by rw [hl]; exact rs.reach.line) (by rw [hl]; exact Nat.le_refl _)
     (fun _ => Nat.lt_of_lt_of_le rs.lt (by have := rs.reach.bd; rw [rs.reach.input] at this; exact this))⟩
 
 /-- `next_token` from any state satisfying the invariant returns a token (it does not panic),
@@ -880,9 +985,12 @@ theorem readStringBody_exits :
       have hne : s.readChar.ch ≠ nul := by intro e; simp [e] at hc
       have hlt' := (readChar_inv s).lt_of_ne hne
       rw [readChar_input, h.readChar_pos] at hlt'
-      exact readStringBody_exits fuel s.readChar (readChar_inv s)
-        (by rw [readChar_input, h.readChar_pos]; exact hlt')
-        (by rw [readChar_input, h.readChar_pos]; omega)
+      obtain ⟨i', hin', hpos', -⟩ := bump_facts s.readChar (readChar_inv s)
+      generalize (if (s.readChar.ch == '\n') = true then { s.readChar with line := s.readChar.line + 1 } else s.readChar) = s1'
+        at i' hin' hpos'
+      exact readStringBody_exits fuel s1' i'
+        (by rw [hin', hpos', readChar_input, h.readChar_pos]; exact hlt')
+        (by rw [hin', hpos', readChar_input, h.readChar_pos]; omega)
 
 theorem skipLine_exits :
     ∀ (fuel : Nat) (s : S), Inv s → s.position < s.input.size → s.input.size - s.position ≤ fuel →
@@ -1000,8 +1108,462 @@ example : tokens (scan "1.5e+3 0b1 .5 1..=2 a.b 'xy") = some
      ⟨"RangeInc", "..=", 1⟩, ⟨"Decimal", "2", 1⟩, ⟨"Identifier", "a", 1⟩, ⟨"Dot", ".", 1⟩,
      ⟨"Identifier", "b", 1⟩, ⟨"Illegal", "'xy", 1⟩, ⟨"Eof", "", 1⟩] := by decide
 
--- line numbers: newlines inside a string literal are not counted, the one ending a comment is
+-- line numbers: the newlines inside a string literal are counted (the `Str` token carries the line the literal ends
+-- on), and so is the one ending a comment
 example : tokens (scan "a\n\"x\ny\" // c\n\n  b") = some
-    [⟨"Identifier", "a", 1⟩, ⟨"Str", "x\ny", 2⟩, ⟨"Identifier", "b", 4⟩, ⟨"Eof", "", 4⟩] := by decide
+    [⟨"Identifier", "a", 1⟩, ⟨"Str", "x\ny", 3⟩, ⟨"Identifier", "b", 5⟩, ⟨"Eof", "", 5⟩] := by decide
+-- a token after a multi-line string literal / after a char literal holding a raw newline is on line 2
+example : tokens (scan "\"a\nb\" 1") = some
+    [⟨"Str", "a\nb", 2⟩, ⟨"Decimal", "1", 2⟩, ⟨"Eof", "", 2⟩] := by decide
+example : tokens (scan "'\n' x") = some
+    [⟨"Char", "\n", 2⟩, ⟨"Identifier", "x", 2⟩, ⟨"Eof", "", 2⟩] := by decide
+-- an unterminated string counts its lines too; an illegal char token counts only a newline right behind the quote
+example : tokens (scan "\"a\nb\n") = some [⟨"Illegal", "a\nb\n", 3⟩, ⟨"Eof", "", 3⟩] := by decide
+example : tokens (scan "'\nx\ny' z") = some [⟨"Illegal", "'\nx\ny'", 2⟩, ⟨"Identifier", "z", 2⟩, ⟨"Eof", "", 2⟩] := by decide
+
+/-! ## exact line numbers (`scan_lines_exact_partial`)
+
+With the newlines inside string literals and a raw newline as the character of a char literal counted, the only
+characters `next_token` consumes without looking whether they are newlines are: the tail of an illegal char/byte token
+(`read_until_quote`) and the byte of a byte literal (`b'⏎'`).  Outside these paths — excluded below by the type of the
+token produced (`Illegal`, `Byte`) — the line counter grows by EXACTLY the number of newlines passed. -/
+
+/-- `s` was reached from `s0` with exact bookkeeping: the line counter grew by exactly the number of newlines passed -/
+structure Exa (s0 s : S) : Prop where
+  inv : Inv s
+  ex : s.line + nlBefore s0 = s0.line + nlBefore s
+
+theorem Exa.refl {s : S} (h : Inv s) : Exa s s := ⟨h, rfl⟩
+
+theorem Exa.trans {a b c : S} (h1 : Exa a b) (h2 : Exa b c) : Exa a c :=
+  ⟨h2.inv, by have := h1.ex; have := h2.ex; omega⟩
+
+/-- `read_char` over a character that is not a newline -/
+theorem Exa.step {s0 s : S} (e : Exa s0 s) (hc : s.ch ≠ '\n') : Exa s0 s.readChar :=
+  ⟨readChar_inv s, by
+    have := nlBefore_other (s' := s.readChar) e.inv hc rfl e.inv.rp
+    have := e.ex
+    simp only [readChar_line]; omega⟩
+
+theorem Exa.condStep {s0 s : S} (e : Exa s0 s) (c : Bool) (hc : c = true → s.ch ≠ '\n') :
+    Exa s0 (if c = true then s.readChar else s) := by
+  split
+  · next h => exact e.step (hc h)
+  · exact e
+
+theorem readWhile_exa (p : Char → Bool) (hp : p '\n' = false) :
+    ∀ (fuel : Nat) (s : S), Inv s → Exa s (readWhile p fuel s)
+  | 0, _, h => Exa.refl h
+  | fuel+1, s, h => by
+    simp only [readWhile]
+    split
+    · next hc =>
+      have hne : s.ch ≠ '\n' := by intro e; rw [e, hp] at hc; exact Bool.noConfusion hc
+      exact ((Exa.refl h).step hne).trans (readWhile_exa p hp fuel _ (readChar_inv s))
+    · exact Exa.refl h
+
+theorem Exa.while_ {s0 s : S} (e : Exa s0 s) (p : Char → Bool) (hp : p '\n' = false) (fuel : Nat) :
+    Exa s0 (readWhile p fuel s) :=
+  e.trans (readWhile_exa p hp fuel s e.inv)
+
+theorem Exa.newline {s : S} (h : Inv s) (hc : s.ch = '\n') : Exa s { s.readChar with line := s.line + 1 } :=
+  ⟨(Skip.newline h hc).inv, by
+    have := nlBefore_newline (s' := { s.readChar with line := s.line + 1 }) h hc rfl h.readChar_pos
+    show s.line + 1 + nlBefore s = _
+    omega⟩
+
+theorem skipWhitespace_exa : ∀ (fuel : Nat) (s : S), Inv s → Exa s (skipWhitespace fuel s)
+  | 0, _, h => Exa.refl h
+  | fuel+1, s, h => by
+    simp only [skipWhitespace]
+    split
+    · next hc =>
+      have hne : s.ch ≠ '\n' := by intro e; rw [e] at hc; revert hc; decide
+      exact ((Exa.refl h).step hne).trans (skipWhitespace_exa fuel _ (readChar_inv s))
+    · split
+      · next hc =>
+        have hn := Exa.newline h (eq_of_beq hc)
+        exact hn.trans (skipWhitespace_exa fuel _ hn.inv)
+      · exact Exa.refl h
+
+/-- `skip_line` stops in front of the newline: it consumes the character it is entered on and non-newlines -/
+theorem skipLine_exa : ∀ (fuel : Nat) (s : S), Inv s → s.ch ≠ '\n' → Exa s (skipLine fuel s)
+  | 0, _, h, _ => Exa.refl h
+  | fuel+1, s, h, hc => by
+    rw [skipLine]
+    split
+    · exact (Exa.refl h).step hc
+    · next hc2 =>
+      have hne : s.readChar.ch ≠ '\n' := by intro e; simp [e] at hc2
+      exact ((Exa.refl h).step hc).trans (skipLine_exa fuel _ (readChar_inv s) hne)
+
+theorem skipComments_exa : ∀ (fuel : Nat) (s : S), Inv s → Exa s (skipComments fuel s)
+  | 0, _, h => Exa.refl h
+  | fuel+1, s, h => by
+    rw [skipComments]
+    split
+    · next hc =>
+      have hne : s.ch ≠ '\n' := by
+        intro e
+        have h1 : (s.ch == '#') = false ∧ (s.ch == '/') = false := by rw [e]; decide
+        simp [h1.1, h1.2] at hc
+      have e1 := skipLine_exa (s.input.size + 1) s h hne
+      generalize skipLine (s.input.size + 1) s = s1 at e1
+      have e2 := e1.trans (skipWhitespace_exa (s1.input.size + 2) s1 e1.inv)
+      exact e2.trans (skipComments_exa fuel _ e2.inv)
+    · exact Exa.refl h
+
+/-! ### the reader functions -/
+
+/-- exactness of a reader that is followed by the common `read_char` of `next_token` (string and char literals):
+unless the token is `Illegal`, the bookkeeping is exact, the token carries the final line, and the cursor is not on a newline -/
+def GoodXQ (s : S) (r : Res) : Prop :=
+  ∀ t s', r = .tok t s' → t.ttype ≠ "Illegal" → Exa s s' ∧ t.line = s'.line ∧ s'.ch ≠ '\n'
+
+/-- exactness of the other readers (identifiers, numbers): unless the token is `Illegal` or `Byte` -/
+def GoodX (s : S) (r : Res) : Prop :=
+  ∀ t s', r = .tok t s' → t.ttype ≠ "Illegal" → t.ttype ≠ "Byte" → Exa s s' ∧ t.line = s'.line
+
+theorem goodXQ_tok {s0 s : S} (e : Exa s0 s) (hc : s.ch ≠ '\n') (ty lit : String) : GoodXQ s0 (.tok (mk s ty lit) s) := by
+  intro t s' h _
+  injection h with h1 h2
+  subst h1 h2
+  exact ⟨e, rfl, hc⟩
+
+theorem goodXQ_illegal (s0 s : S) (lit : String) : GoodXQ s0 (.tok (mk s "Illegal" lit) s) := by
+  intro t s' h hi
+  injection h with h1 h2
+  subst h1
+  exact absurd rfl hi
+
+theorem goodXQ_panic (s0 : S) : GoodXQ s0 .panic := by
+  intro t s' h
+  cases h
+
+theorem goodX_tok {s0 s : S} (e : Exa s0 s) (ty lit : String) : GoodX s0 (.tok (mk s ty lit) s) := by
+  intro t s' h _ _
+  injection h with h1 h2
+  subst h1 h2
+  exact ⟨e, rfl⟩
+
+theorem goodX_illegal (s0 s : S) (lit : String) : GoodX s0 (.tok (mk s "Illegal" lit) s) := by
+  intro t s' h hi
+  injection h with h1 h2
+  subst h1
+  exact absurd rfl hi
+
+theorem goodX_byte (s0 s : S) (lit : String) : GoodX s0 (.tok (mk s "Byte" lit) s) := by
+  intro t s' h _ hb
+  injection h with h1 h2
+  subst h1
+  exact absurd rfl hb
+
+theorem goodX_panic (s0 : S) : GoodX s0 .panic := by
+  intro t s' h
+  cases h
+
+/-- a string literal, closed or not, counts exactly the newlines it contains -/
+theorem readString_goodX (s : S) (h : Inv s) (hq : s.ch = '"') : GoodXQ s (readString s) := by
+  have hne : s.ch ≠ nul := by rw [hq]; decide
+  have hlt := h.lt_of_ne hne
+  have l := readStringBody_loop (s.input.size + 1) s h hlt (by omega)
+  simp only [readString]
+  generalize readStringBody (s.input.size + 1) s = s1 at l
+  have ex : Exa s s1 := ⟨l.inv, by
+    have := nlBefore_other (s' := s.readChar) h (by rw [hq]; decide) rfl h.rp
+    have := l.nl
+    omega⟩
+  split
+  · exact goodXQ_panic _
+  · split
+    · next hc => exact goodXQ_tok ex (by rw [eq_of_beq hc]; decide) _ _
+    · exact goodXQ_illegal _ _ _
+
+theorem charStep_exa {s1 : S} (i1 : Inv s1) {c : Char} (hc : s1.at s1.position = some c) :
+    Exa s1 (if (c == '\n') = true then { s1 with line := s1.line + 1 } else s1).readChar := by
+  have hch : s1.ch = c := by
+    rw [i1.ch, Array.getD_eq_getD_getElem?]
+    unfold S.at at hc
+    rw [hc]; rfl
+  split
+  · next hn =>
+    refine ⟨readChar_inv _, ?_⟩
+    have := nlBefore_newline (s' := ({ s1 with line := s1.line + 1 } : S).readChar) i1
+      (hch.trans (eq_of_beq hn)) rfl i1.rp
+    show s1.line + 1 + nlBefore s1 = _
+    omega
+  · next hn => exact (Exa.refl i1).step (by rw [hch]; simpa using hn)
+
+theorem readCharToken_goodX (s : S) (h : Inv s) (hq : s.ch = '\'') : GoodXQ s (readCharToken s) := by
+  have e1 := (Exa.refl h).step (by rw [hq]; decide)
+  simp only [readCharToken]
+  generalize s.readChar = s1 at e1
+  split
+  · exact goodXQ_illegal _ _ _
+  · next hlt =>
+    obtain ⟨c, hc⟩ := at_isSome (s := s1) (Nat.lt_of_not_le hlt)
+    simp only [hc]
+    have e2 := e1.trans (charStep_exa e1.inv hc)
+    generalize (if (c == '\n') = true then { s1 with line := s1.line + 1 } else s1).readChar = s2 at e2
+    split
+    · next hq2 => exact goodXQ_tok e2 (by rw [eq_of_beq hq2]; decide) _ _
+    · split
+      · exact goodXQ_illegal _ _ _
+      · exact goodXQ_panic _
+
+theorem readIdentifier_goodX (s : S) (h : Inv s) : GoodX s (readIdentifier s) := by
+  have e1 := readWhile_exa isIdentRemaining (by decide) (s.input.size + 1) s h
+  simp only [readIdentifier]
+  generalize readWhile isIdentRemaining (s.input.size + 1) s = s1 at e1
+  split
+  · exact goodX_panic _
+  · split
+    · repeat' (first | exact goodX_panic _ | exact goodX_illegal _ _ _ | exact goodX_byte _ _ _ | split)
+    · exact goodX_tok e1 _ _
+
+theorem numTail_goodX {s0 s : S} (e : Exa s0 s) (pos n : Nat) (isHex isOct isBin isFloat : Bool) :
+    GoodX s0 (numTail pos n s isHex isOct isBin isFloat) := by
+  simp only [numTail]
+  split
+  · next he =>
+    have hne : s.ch ≠ '\n' := by intro e'; rw [e'] at he; revert he; decide
+    have e1 := e.step hne
+    generalize s.readChar = s1 at e1
+    split
+    · split
+      · exact goodX_illegal _ _ _
+      · exact goodX_panic _
+    · have e2 := e1.condStep (s1.ch == '-' || s1.ch == '+') (by
+        intro hpm e'; rw [e'] at hpm; revert hpm; decide)
+      generalize (if (s1.ch == '-' || s1.ch == '+') = true then s1.readChar else s1) = s2 at e2
+      have e3 := (e2.while_ Char.isDigit (by decide) n).while_ isIdentFirst (by decide) n
+      generalize readWhile isIdentFirst n (readWhile Char.isDigit n s2) = s3 at e3
+      split
+      · exact goodX_tok e3 _ _
+      · exact goodX_panic _
+  · have e1 := e.while_ isIdentFirst (by decide) n
+    generalize readWhile isIdentFirst n s = s1 at e1
+    split
+    · exact goodX_tok e1 _ _
+    · exact goodX_panic _
+
+theorem numHead_exa {s0 : S} (h : Inv s0) : Exa s0 (numHead s0).1 := by
+  simp only [numHead]
+  split
+  · next h0 =>
+    have e1 := (Exa.refl h).step (by rw [eq_of_beq h0]; decide)
+    generalize s0.readChar = s1 at e1
+    have key : ∀ c1 c2 : Char, c1 ≠ '\n' → c2 ≠ '\n' → (s1.ch == c1 || s1.ch == c2) = true → Exa s0 s1.readChar := by
+      intro c1 c2 h1 h2 hc
+      apply e1.step
+      intro e; simp [e] at hc
+      exact hc.elim (fun h => h1 h.symm) (fun h => h2 h.symm)
+    split
+    · next hc => exact key _ _ (by decide) (by decide) hc
+    · split
+      · next hc => exact key _ _ (by decide) (by decide) hc
+      · split
+        · next hc => exact key _ _ (by decide) (by decide) hc
+        · exact e1
+  · exact Exa.refl h
+
+theorem numMid_exa {s0 s : S} (e : Exa s0 s) (n : Nat) : Exa s0 (numMid n s).1 := by
+  simp only [numMid]
+  split
+  · next hc =>
+    have hne : s.ch ≠ '\n' := by
+      intro e'
+      have h1 : (s.ch == '.') = false := by rw [e']; decide
+      simp [h1] at hc
+    exact (e.step hne).while_ Char.isDigit (by decide) n
+  · exact e
+
+theorem digit_pred_nl (isHex : Bool) : (fun c : Char => c.isDigit || (isHex && isHexDigit c)) '\n' = false := by
+  cases isHex <;> decide
+
+theorem readNumber_goodX (s0 : S) (h : Inv s0) : GoodX s0 (readNumber s0) := by
+  have eH := numHead_exa h
+  unfold readNumber
+  extract_lets position n
+  split
+  next s isHex isOct isBin heq =>
+  have heq' : numHead s0 = (s, isHex, isOct, isBin) := heq
+  rw [heq'] at eH
+  simp only [] at eH
+  have key : Exa s0 (numMid (s0.input.size + 1)
+      (readWhile (fun c => c.isDigit || (isHex && isHexDigit c)) (s0.input.size + 1) s)).1 :=
+    numMid_exa (eH.while_ _ (digit_pred_nl isHex) _) _
+  extract_lets sA
+  split
+  next sB isFloat heq2 =>
+  have heq2' : numMid (s0.input.size + 1)
+      (readWhile (fun c => c.isDigit || (isHex && isHexDigit c)) (s0.input.size + 1) s) = (sB, isFloat) := heq2
+  rw [heq2'] at key
+  exact numTail_goodX key s0.position (s0.input.size + 1) isHex isOct isBin isFloat
+
+/-! ### `next_token` -/
+
+/-- the one fact about the generated tables used here: no two-character operator has a newline as its second character -/
+theorem twins_no_nl : ∀ e ∈ P2sh.Gen.ParseRules.twins, ∀ x ∈ e.2.2, x.1 ≠ "\n" := by decide
+
+theorem singleOrTwin_nl {s : S} {t : Token} {s' : S} (h : singleOrTwin s = some (t, s')) :
+    s' = s ∨ (s' = s.readChar ∧ s.peekChar ≠ '\n') := by
+  unfold singleOrTwin at h
+  extract_lets c at h
+  split at h
+  · injection h with h; injection h with h1 h2
+    exact Or.inl h2.symm
+  · split at h
+    · next a single nexts htw =>
+      split at h
+      · next y t2 hn =>
+        injection h with h; injection h with h1 h2
+        refine Or.inr ⟨h2.symm, ?_⟩
+        intro e
+        have m1 := List.mem_of_find?_eq_some htw
+        have m2 := List.mem_of_find?_eq_some hn
+        have p2 := List.find?_some hn
+        apply twins_no_nl _ m1 _ m2
+        have p3 : y = String.singleton s.peekChar := eq_of_beq p2
+        show y = "\n"
+        rw [p3, e]
+        decide
+      · injection h with h; injection h with h1 h2
+        exact Or.inl h2.symm
+    · cases h
+
+/-- exact bookkeeping of one call of `next_token` -/
+structure NextX (s : S) (t : Token) (s' : S) : Prop where
+  /-- the line counter grew by exactly the number of newlines passed -/
+  ex : s'.line + nlBefore s = s.line + nlBefore s'
+  /-- the token carries the line number of the returned state -/
+  line : t.line = s'.line
+
+def GoodN (s : S) (r : Res) : Prop :=
+  ∀ t s', r = .tok t s' → t.ttype ≠ "Illegal" → t.ttype ≠ "Byte" → NextX s t s'
+
+theorem goodN_tok {s s' : S} (e : Exa s s') {tk : Token} (hl : tk.line = s'.line) : GoodN s (.tok tk s') := by
+  intro t s1 h _ _
+  injection h with h1 h2
+  subst h1 h2
+  exact ⟨e.ex, hl⟩
+
+theorem goodN_illegal (s sm s' : S) (lit : String) : GoodN s (.tok (mk sm "Illegal" lit) s') := by
+  intro t s1 h hi
+  injection h with h1 h2
+  subst h1
+  exact absurd rfl hi
+
+theorem goodN_of_goodXQ {s s2 : S} (k : Exa s s2) {r : Res} : GoodXQ s2 r →
+    GoodN s (match r with
+      | .tok t s' => Res.tok t s'.readChar
+      | .panic => Res.panic) := by
+  intro g t s' e hi _
+  cases r with
+  | panic => cases e
+  | tok t0 s0 =>
+    injection e with e1 e2
+    subst e1 e2
+    obtain ⟨x, hl, hc⟩ := g _ _ rfl hi
+    exact ⟨((k.trans x).step hc).ex, hl⟩
+
+theorem goodN_of_goodX {s s2 : S} (k : Exa s s2) {r : Res} (g : GoodX s2 r) : GoodN s r := by
+  intro t s' e hi hb
+  obtain ⟨x, hl⟩ := g _ _ e hi hb
+  exact ⟨(k.trans x).ex, hl⟩
+
+/-- **nextToken_exact**: unless the token produced is `Illegal` or `Byte`, one call of `next_token` advances the line
+counter by exactly the number of newlines it passes, and the token carries the line number of the returned state -/
+theorem nextToken_exact (s : S) (h : Inv s) : GoodN s (nextToken s) := by
+  have hb := (skip_phase_exits s h).2
+  unfold nextToken
+  extract_lets n s1 s2
+  have k : Exa s s2 :=
+    (skipWhitespace_exa n s h).trans (skipComments_exa n s1 (skipWhitespace_exa n s h).inv)
+  have hb' : isBlank s2.ch = false := hb
+  clear_value s2
+  clear hb
+  have hnl : s2.ch ≠ '\n' := by intro e; rw [e] at hb'; revert hb'; decide
+  have a1 : Exa s s2.readChar := k.step hnl
+  split
+  · exact goodN_tok a1 rfl
+  · split
+    · next t s' heq =>
+      have hl := (singleOrTwin_cases heq).2
+      rcases singleOrTwin_nl heq with rfl | ⟨rfl, hpk⟩
+      · exact goodN_tok a1 hl
+      · exact goodN_tok (a1.step (by rw [readChar_ch, ← peekChar_eq]; exact hpk)) hl
+    · split
+      · next hq => exact goodN_of_goodXQ k (readString_goodX s2 k.inv (eq_of_beq hq))
+      · split
+        · next hq => exact goodN_of_goodXQ k (readCharToken_goodX s2 k.inv (eq_of_beq hq))
+        · split
+          · exact goodN_of_goodX k (readIdentifier_goodX s2 k.inv)
+          · split
+            · exact goodN_of_goodX k (readNumber_goodX s2 k.inv)
+            · split
+              · next hd =>
+                have hpk : s2.readChar.ch ≠ '\n' := by
+                  intro e
+                  rw [readChar_ch, ← peekChar_eq] at e
+                  have hd' : (s2.ch == '.' && s2.peekChar == '.') = true := hd
+                  rw [e] at hd'
+                  simp at hd'
+                have a2 := a1.step hpk
+                split
+                · next he => exact goodN_tok (a2.step (by rw [eq_of_beq he]; decide)) rfl
+                · exact goodN_tok a2 rfl
+              · split
+                · exact goodN_tok a1 rfl
+                · split
+                  · exact goodN_of_goodX k (readNumber_goodX s2 k.inv)
+                  · exact goodN_illegal _ _ _ _
+
+/-! ### the token list -/
+
+/-- `ts` is the list of tokens returned by successive calls of `next_token` from `s`, and every one of them carries
+exactly the line number `1 + (number of newlines among the characters consumed so far)` — i.e. among the characters
+before the cursor of the state returned with it: everything up to and including the token's last character -/
+inductive ExactFrom : S → List Token → Prop
+  | nil (s : S) : ExactFrom s []
+  | cons {s s' : S} {t : Token} {rest : List Token} : nextToken s = .tok t s' → t.line = 1 + nlBefore s' →
+      ExactFrom s' rest → ExactFrom s (t :: rest)
+
+theorem run_exact (fuel : Nat) : ∀ (s : S) (acc ts : List Token), Inv s → s.line = 1 + nlBefore s →
+    run fuel s acc = .ok ts → (∀ t ∈ ts, t.ttype ≠ "Illegal" ∧ t.ttype ≠ "Byte") →
+    ∃ out, ts = acc ++ out ∧ ExactFrom s out := by
+  induction fuel with
+  | zero => intro s acc ts _ _ e; rw [run_zero] at e; exact Run.noConfusion e
+  | succ fuel ih =>
+    intro s acc ts h hl e hok
+    obtain ⟨t, s', et, nx⟩ := nextToken_spec s h
+    rw [run_succ_tok fuel s acc t s' et] at e
+    split at e
+    · injection e with e
+      have hm : t ∈ ts := by rw [← e]; simp
+      have hx := nextToken_exact s h t s' et (hok t hm).1 (hok t hm).2
+      refine ⟨[t], by rw [← e]; simp, ExactFrom.cons et ?_ (ExactFrom.nil _)⟩
+      have := hx.ex; have := hx.line; omega
+    · have h3 := nx.nl
+      obtain ⟨out0, e0, -⟩ := run_lines fuel s' (acc ++ [t]) ts nx.inv (by omega) e
+      have hm : t ∈ ts := by rw [e0]; simp
+      have hx := nextToken_exact s h t s' et (hok t hm).1 (hok t hm).2
+      have hl' : s'.line = 1 + nlBefore s' := by have := hx.ex; omega
+      obtain ⟨out, e', hf⟩ := ih s' (acc ++ [t]) ts nx.inv hl' e hok
+      refine ⟨t :: out, by rw [e']; simp, ExactFrom.cons et ?_ hf⟩
+      have := hx.line; omega
+
+/-- **scan_lines_exact_partial**: if the scan of `src` produces no `Illegal` token and no `Byte` token (the two paths on
+which the scanner passes characters without counting newlines: the tail of an illegal char/byte token, and the byte of
+`b'…'`), every token's line number is exact — `1 +` the number of newlines in the source up to and including the
+token's last character (newlines in whitespace, in comments, inside string literals and as the character of a char
+literal are all counted; the `Str` token of a multi-line literal carries the line the literal ends on) -/
+theorem scan_lines_exact_partial (src : String) (ts : List Token) (e : scan src = .ok ts)
+    (hok : ∀ t ∈ ts, t.ttype ≠ "Illegal" ∧ t.ttype ≠ "Byte") : ExactFrom (init src) ts := by
+  obtain ⟨out, e', hf⟩ := run_exact (src.length + 2) (init src) [] ts (init_inv src)
+    (by simp [nlBefore]) e hok
+  rw [List.nil_append] at e'
+  subst e'
+  exact hf
 
 end P2sh.Props.C01
